@@ -284,7 +284,7 @@ def small_graphs(n, outs_mode, allow_self=True):
 
 SPELLINGS = ["x", "./x", "a/../x", "x/", "dir::d", "dir::d/", "d/x", "../x", "dir::../../x", "dir::x", "dir::.", "d",
              "dir::d/x", "../d/x", "/abs", "dir::/abs", "x//y", "dir::..", "docker::img", "docker::x", "../s/x", "dir::../s",
-             "dir::./d/../d", "..x", "dir::x/y/..", "dx", "dir::dx", "d.x", "d/./x", "d//x", "d/x/../x", "../../../x"]
+             "dir::./d/../d", "..x", "dir::x/y/..", "dx", "dir::dx", "d.x", "d/./x", "d//x", "d/x/../x", "../../../x", "../sx", "dir::../sx"]
 PKG_PAIRS = [("", ""), ("", "d"), ("d", "d"), ("d", "d/x"), ("a", "a/b"), ("a/b", "a"), ("d", "e")]
 INPUT_SPELLINGS = ["a", "../a", "/a", "a/../../b", "..", "./a", "a/..", "..a", "a/../..", "a/./b", "", ".", "a//b", "../../a", "a/b/../../c", "..."]
 
@@ -547,6 +547,13 @@ def run(ctx):
             outs = ["o%d" % i for i in range(k - 1)] + ["clash"]
             add("boundary", [("t", T("", "many", [], outs, inputs=["i%d" % i for i in range(k)])), ("t", T("", "other", [], ["./clash"]))])
             add("boundary", [("t", T("", "many", [], outs)), ("t", T("", "other", [L("", "many")], ["./clash"]))])
+            douts = ["dir::dd%d" % i for i in range(k - 1)] + ["dir::clashd"]
+            add("boundary", [("t", T("", "manyd", [], douts)), ("t", T("", "other", [], ["clashd/f"]))])
+            add("boundary", [("t", T("", "manyd", [], douts)), ("t", T("", "other", [], ["dir::clashd/sub"]))])
+            add("boundary", [("t", T("", "manyi", [], ["docker::im%d" % i for i in range(k - 1)] + ["docker::clash"])),
+                             ("t", T("q", "other", [], ["docker::clash"]))])
+            # k targets, only the last two clash
+            add("boundary", [("t", T("", "w%d" % i, [], ["wo%d" % min(i, k - 2)])) for i in range(k)])
             # chain of k nodes (every third an alias); both ends write the same file: ordered only through the whole chain
             chain = [("t", T("", "c0", [], ["same"]))]
             for i in range(1, k):
